@@ -518,3 +518,346 @@ func SoloPlans(p *Plan) (plans []*Plan, conn []int, sess []uint32) {
 	}
 	return
 }
+
+// ---- C16: reloading equals starting fresh ------------------------------------------------
+
+func init() {
+	register("C16", genC16)
+}
+
+// mutateDoc derives the next document of a history from the previous one.
+func mutateDoc(r *Rand, d model.Doc) model.Doc {
+	// deep copy
+	q := d.Clone()
+	switch r.Intn(12) {
+	case 0:
+		q.PrefixDeny = nil // drop the optional top-level key
+	case 1:
+		q.PrefixAllow = nil
+	case 2:
+		q.PrefixDeny = []string{PickOf(r, "10.9.0.0/16", "172.16.0.0/12")}
+	case 3:
+		if len(q.Users) > 1 {
+			i := r.Intn(len(q.Users))
+			q.Users = append(q.Users[:i:i], q.Users[i+1:]...) // remove a user (others move up)
+		}
+	case 4:
+		if len(q.Users) > 1 {
+			i, j := r.Intn(len(q.Users)), r.Intn(len(q.Users))
+			q.Users[i], q.Users[j] = q.Users[j], q.Users[i] // reorder
+		}
+	case 5:
+		if len(q.Secrets) > 1 {
+			i := r.Intn(len(q.Secrets))
+			q.Secrets = append(q.Secrets[:i:i], q.Secrets[i+1:]...)
+		}
+	case 6:
+		if len(q.Users) > 0 {
+			u := &q.Users[r.Intn(len(q.Users))]
+			switch r.Intn(5) {
+			case 0:
+				u.Commands = nil
+			case 1:
+				u.Services = nil
+			case 2:
+				u.Groups = nil
+			case 3:
+				u.Authenticator = nil
+			case 4:
+				u.Accounter = nil
+			}
+		}
+	case 7:
+		if len(q.Users) > 0 {
+			u := &q.Users[r.Intn(len(q.Users))]
+			if len(u.Commands) > 0 {
+				u.Commands = u.Commands[:len(u.Commands)-1]
+			}
+			if len(u.Scopes) > 1 {
+				u.Scopes = u.Scopes[:1]
+			}
+		}
+	case 8:
+		if len(q.Users) > 0 {
+			u := &q.Users[r.Intn(len(q.Users))]
+			if len(u.Groups) > 0 {
+				g := &u.Groups[0]
+				g.Commands, g.Services = nil, nil
+			}
+		}
+	case 9:
+		// a brand new, smaller document
+		return GenDoc(r, DocOpts{Filters: true})
+	case 10:
+		if len(q.Users) > 0 {
+			u := &q.Users[r.Intn(len(q.Users))]
+			for i := range u.Services {
+				if len(u.Services[i].SetValues) > 1 {
+					u.Services[i].SetValues = u.Services[i].SetValues[:1]
+				}
+				u.Services[i].Match = nil
+			}
+			if u.Authenticator != nil {
+				u.Authenticator.Options = map[string]string{"hash": PwPool[r.Intn(len(PwPool))].Hash}
+			}
+		}
+	}
+	return q
+}
+
+// genC16e2e: the reference server reloads documents while clients come and go; rights,
+// users, scopes and filters removed by a reload must be gone for new connections.
+func genC16e2e(r *Rand, p *Plan, tier string) {
+	p.Family = "reload-end-to-end"
+	p.Scen.Server = "ref"
+	p.Scen.Format = PickOf(r, "yaml", "json")
+	d := GenDoc(r, DocOpts{Filters: true, Keychain: false})
+	d.Normalize()
+	docs := []model.Doc{d}
+	nDocs := 1 + r.Intn(3)
+	for i := 0; i < nDocs; i++ {
+		nd := mutateDoc(r, docs[len(docs)-1])
+		nd.Normalize()
+		docs = append(docs, nd)
+	}
+	p.Scen.Docs = docs
+	step := 0
+	idx := 0
+	for di := 0; di < len(docs); di++ {
+		if di > 0 {
+			step += 8 + r.Intn(20)
+			p.Scen.Ctl = append(p.Scen.Ctl, Ctl{Kind: "publish", N: di, NotBefore: step})
+			step += 6 + r.Intn(10)
+		}
+		// clients that arrive while document di is (most likely) in force, using the
+		// keys, users and addresses of any document of the history
+		for k := r.Intn(3); k > 0; k-- {
+			src := docs[r.Intn(len(docs))]
+			g := &refGen{r: r, d: src, sid: uint32(1000*idx + r.Intn(500))}
+			g.names, g.pws = DocUsers(src)
+			if len(src.Secrets) == 0 {
+				continue
+			}
+			scopeIdx := r.Intn(len(src.Secrets))
+			cs := ClientSpec{Addr: ClientAddrFor(r, src, scopeIdx, idx), NotBefore: step + r.Intn(6)}
+			adm := RefAdmission(src, &cs)
+			cs.Key = []byte(adm.Key)
+			if !adm.Admit {
+				cs.Key = []byte(src.Secrets[scopeIdx].Secret.Key)
+			}
+			var scripts []SessScript
+			for j := 1 + r.Intn(3); j > 0; j-- {
+				switch r.Intn(3) {
+				case 0:
+					scripts = append(scripts, g.authenSess(adm.Scope, 0))
+				case 1:
+					scripts = append(scripts, g.authorSess(adm.Scope, 0))
+				default:
+					scripts = append(scripts, g.acctSess(adm.Scope, 0, false))
+				}
+			}
+			cs.Ops = Interleave(r, scripts, false)
+			cs.Ops = append(cs.Ops, Op{Kind: "close"})
+			p.Scen.Clients = append(p.Scen.Clients, cs)
+			idx++
+		}
+	}
+	p.Tape = r.Tape(2000)
+	p.MaxSteps = 6000
+}
+
+func genC16(r *Rand, p *Plan, tier string) {
+	if r.Chance(30) {
+		genC16e2e(r, p, tier)
+		return
+	}
+	p.Family = "config-history"
+	p.Scen.Server = "none"
+	p.Scen.Format = PickOf(r, "yaml", "json")
+	d := GenDoc(r, DocOpts{Filters: true, Overlap: r.Bool()})
+	if len(d.PrefixDeny) == 0 && r.Chance(60) {
+		d.PrefixDeny = []string{"10.200.0.0/16"}
+	}
+	ls := &LoaderScen{}
+	n := 2 + r.Intn(6)
+	cur := d
+	for i := 0; i < n; i++ {
+		if i > 0 {
+			cur = mutateDoc(r, cur)
+		}
+		text := string(cur.Render(p.Scen.Format))
+		st := LoaderStep{Doc: len(p.Scen.RawDocs), Via: PickOf(r, "unmarshal", "unmarshal", "load")}
+		switch r.Intn(14) {
+		case 0: // unparsable document
+			text = PickOf(r, "{{{ not: [valid", "users: [}\n", "\t- broken\n  yaml: : :", "[1,2", "{\"users\": [", "%%%")
+		case 1: // fails the minimum-content check
+			e := cur.Clone()
+			if r.Bool() {
+				e.Users = nil
+			} else {
+				e.Secrets = nil
+			}
+			text = string(e.Render(p.Scen.Format))
+		case 2:
+			st.Tear, st.TearN = "short", r.Intn(len(text)+1)
+		case 3:
+			st.Tear, st.TearN = "stale-tail", r.Intn(len(text)+1)
+		case 4:
+			st.Tear = PickOf(r, "empty", "garbage")
+			st.TearN = r.Intn(1000)
+		}
+		p.Scen.RawDocs = append(p.Scen.RawDocs, text)
+		ls.Steps = append(ls.Steps, st)
+	}
+	p.Scen.Loader = ls
+	p.Tape = r.Tape(10)
+}
+
+// ---- C15: data races (race-detector build) ------------------------------------------------
+
+func init() {
+	register("C15", genC15)
+}
+
+// genAtomicReload: versions of a configuration built so that, for the probe addresses,
+// every mixture of two versions gives an outcome no single version gives; lookups and
+// publications overlap, with every statement of the loader a possible parking point.
+func genAtomicReload(r *Rand, p *Plan, tier string) {
+	p.Family = "atomic-reload"
+	p.Build = "yield"
+	p.Scen.Server = "lookup"
+	p.Scen.Format = PickOf(r, "yaml", "json")
+	nVer := 2 + r.Intn(3)
+	pw := PwPool[r.Intn(len(PwPool))]
+	for v := 0; v < nVer; v++ {
+		var d model.Doc
+		nsc := 1 + r.Intn(2)
+		for i := 0; i < nsc; i++ {
+			d.Secrets = append(d.Secrets, model.SecretCfg{Name: fmt.Sprintf("sc%d", i), Secret: model.KeychainCfg{Group: "g", Key: fmt.Sprintf("K-v%d-s%d-%s", v, i, r.Alnum(8))},
+				Handler: model.HandlerCfg{Type: 1}, Type: 1, Prefixes: []string{fmt.Sprintf("10.%d.0.0/16", 1+i)}})
+		}
+		if r.Chance(30) {
+			// scope order swapped and overlapping: the first match differs by version
+			d.Secrets[0].Prefixes = []string{"10.0.0.0/8"}
+		}
+		d.Users = []model.UserCfg{{Name: "u", Scopes: []string{"sc0", "sc1"}, Authenticator: &model.AuthCfg{Type: 1, Options: map[string]string{"hash": pw.Hash}, Password: pw.Pw}}}
+		switch (v + r.Intn(2)) % 3 {
+		case 1:
+			d.PrefixDeny = []string{fmt.Sprintf("10.%d.0.0/16", 1+r.Intn(2))}
+		case 2:
+			d.PrefixAllow = []string{fmt.Sprintf("10.%d.0.0/16", 1+r.Intn(2))}
+		}
+		d.Normalize()
+		p.Scen.Docs = append(p.Scen.Docs, d)
+	}
+	step := 2
+	for v := 1; v < nVer; v++ {
+		p.Scen.Ctl = append(p.Scen.Ctl, Ctl{Kind: "publish", N: v, NotBefore: step})
+		step += 3 + r.Intn(12)
+	}
+	n := 2 + r.Intn(6)
+	for i := 0; i < n; i++ {
+		p.Scen.Clients = append(p.Scen.Clients, ClientSpec{Addr: fmt.Sprintf("10.%d.2.3:%d", 1+r.Intn(3), 40000+i), NotBefore: r.Intn(step + 5)})
+	}
+	p.Park = []string{"yield:loader.go:updates"}
+	if r.Chance(30) {
+		p.Park = append(p.Park, "yield:loader.go:get")
+	}
+	p.Tape = r.Tape(1500)
+	p.MaxSteps = 1500
+}
+
+func genC15(r *Rand, p *Plan, tier string) {
+	if r.Chance(25) {
+		genAtomicReload(r, p, tier)
+		return
+	}
+	if r.Chance(25) {
+		// published configurations are never written again (loader histories, JSON and YAML)
+		genC16(r, p, tier)
+		for p.Scen.Loader == nil {
+			*p = Plan{V: 1, Property: "C15", Seed: p.Seed, Run: p.Run, Mode: "serial", MaxSteps: 4000}
+			genC16(r, p, tier)
+		}
+		p.Family = "published-config-immutable"
+		p.Build = "race"
+		return
+	}
+	p.Family = "race-batches"
+	p.Build = "race"
+	p.Mode = "batch"
+	p.Scen.Server = "ref"
+	p.Scen.Format = PickOf(r, "yaml", "json")
+	d := GenDoc(r, DocOpts{Scopes: 1, Keychain: true})
+	// surrounding whitespace in rule names and patterns makes in-place trimming visible
+	for ui := range d.Users {
+		for ci := range d.Users[ui].Commands {
+			c := &d.Users[ui].Commands[ci]
+			c.Name = " " + c.Name
+			for mi := range c.Match {
+				c.Match[mi] = c.Match[mi] + " "
+			}
+		}
+	}
+	d.Normalize()
+	g := &refGen{r: r, d: d, sid: uint32(r.Intn(1 << 20))}
+	g.names, g.pws = DocUsers(d)
+	docs := []model.Doc{d}
+	if r.Chance(60) {
+		nd := mutateDoc(r, d)
+		if r.Chance(50) {
+			nd = d.Clone() // reload of an equal configuration
+		}
+		nd.Normalize()
+		docs = append(docs, nd)
+		p.Scen.Ctl = append(p.Scen.Ctl, Ctl{Kind: "publish", N: 1, NotBefore: r.Intn(20)})
+		if r.Chance(30) {
+			p.Scen.Ctl = append(p.Scen.Ctl, Ctl{Kind: "publish", N: 1, NotBefore: r.Intn(30)})
+		}
+	}
+	p.Scen.Docs = docs
+	nCli := 2 + r.Intn(4)
+	// everybody works as the same user so that per-user state is shared
+	user := g.pickUser(d.Secrets[0].Name)
+	for ci := 0; ci < nCli; ci++ {
+		cs := ClientSpec{Addr: ClientAddrFor(r, d, 0, ci), NotBefore: r.Intn(6)}
+		adm := RefAdmission(d, &cs)
+		cs.Key = []byte(adm.Key)
+		var scripts []SessScript
+		for k := 1 + r.Intn(4); k > 0; k-- {
+			u := user
+			if r.Chance(20) {
+				u = g.pickUser(adm.Scope)
+			}
+			switch r.Intn(4) {
+			case 0:
+				scripts = append(scripts, SessPAP(g.nextSid(), 0xc1, 0, u, g.pws[u]))
+			case 1:
+				scripts = append(scripts, SessASCII(g.nextSid(), 0, u, g.pws[u], r.Bool(), -1))
+			case 2:
+				scripts = append(scripts, SessAuthor(g.nextSid(), 0xc0, 0, u, GenAuthorArgs(r, d)))
+			default:
+				scripts = append(scripts, SessAcct(g.nextSid(), 0xc0, 0, 1, u, 2, GenAcctArgs(r)))
+			}
+		}
+		cs.Ops = Interleave(r, scripts, r.Bool())
+		cs.Ops = append(cs.Ops, Op{Kind: PickOf(r, "close", "close", "idle", "reset")})
+		p.Scen.Clients = append(p.Scen.Clients, cs)
+	}
+	// make lookups and reloads co-runnable: some client dials in the very step in which
+	// a publication becomes enabled
+	for _, c := range p.Scen.Ctl {
+		if c.Kind == "publish" && len(p.Scen.Clients) > 0 {
+			p.Scen.Clients[r.Intn(len(p.Scen.Clients))].NotBefore = c.NotBefore
+		}
+	}
+	if r.Chance(40) {
+		p.Scen.Ctl = append(p.Scen.Ctl, Ctl{Kind: "cancel", NotBefore: r.Intn(60)})
+	}
+	// in race runs an armed site is a yield point inside the handler (see World.QuietYield)
+	if r.Chance(70) {
+		p.Park = append(p.Park, PickOf(r, "log:record", "log:detected user", "log:detected user", "log:[%v] user", "log:accepting user", "log:failed to validate", "sink", "log:prefix secret provider", "log:remote"))
+	}
+	p.Tape = r.Tape(2500)
+	p.MaxSteps = 4000
+}
